@@ -109,8 +109,11 @@ def plan(tier, seed):
             groups.append(pairs[k:k + 150])
     wf = []
     for mode in ("disp", "fsets", "fz", "mesh", "band", "qpoints", "dos", "pdos", "thermal", "tdisp", "writefc", "nac", "load"):
-        for var in range({"disp": 4, "mesh": 6, "band": 3, "qpoints": 2, "dos": 5, "pdos": 3, "thermal": 5, "tdisp": 3, "writefc": 4, "nac": 3, "fsets": 2, "fz": 1, "load": 6}[mode]):
+        for var in range({"disp": 4, "mesh": 6, "band": 5, "qpoints": 2, "dos": 5, "pdos": 3, "thermal": 5, "tdisp": 3, "writefc": 4, "nac": 3, "fsets": 2, "fz": 1, "load": 6}[mode]):
             wf.append({"kind": "workflow", "mode": mode, "var": var})
+            wf.append({"kind": "workflow", "mode": mode, "var": var, "sys": "tri"})
+    for var in range(32):
+        wf.append({"kind": "workflow", "mode": "pahist", "var": var})
     for k in range(0, len(wf), 4):
         groups.append(wf[k:k + 4])
     meta = {"alphabet": {"options_per_command": len(option_table(False)), "option_value_cases": nopt, "excluded": EXCLUDED, "workflow_cases": len(wf)},
@@ -287,6 +290,41 @@ BORN = """14.399652
 """
 
 
+POSCAR_TRI = """tri
+ 1.0
+ 3.2 0.0 0.0
+ 0.4 3.8 0.0
+ 0.7 -0.5 4.3
+ Na Cl O
+ 1 1 1
+Direct
+ 0.03 0.01 0.02
+ 0.43 0.57 0.61
+ 0.81 0.29 0.33
+"""
+BORN_TRI = """14.399652
+ 2.4 0.2 0.1 0.2 3.0 0.3 0.1 0.3 2.7
+ 1.2 0.1 0 0.1 1.0 0.05 0 0.05 1.4
+ -0.7 0 0.1 0 -0.9 0 0.1 0 -0.5
+ -0.5 -0.1 -0.1 -0.1 -0.1 -0.05 -0.1 -0.05 -0.9
+"""
+# two systems: the cubic one every example uses, and a triclinic one without any symmetry (non-symmetric lattice matrix,
+# general sites: every tensor component is different)
+SYS = {"NaCl": {"poscar": POSCAR, "born": BORN, "dim": ["2", "2", "2"], "S": [2, 2, 2], "pa": "F"},
+       "tri": {"poscar": POSCAR_TRI, "born": BORN_TRI, "dim": ["2", "2", "1"], "S": [2, 2, 1], "pa": None}}
+_cur = {"sys": "NaCl"}
+
+
+def BASE():
+    d = SYS[_cur["sys"]]
+    return ["--dim"] + d["dim"] + (["--pa", d["pa"]] if d["pa"] else []) + ["-c", "POSCAR"]
+
+
+def LIBKW():
+    d = SYS[_cur["sys"]]
+    return {"supercell_matrix": np.diag(d["S"]), "primitive_matrix": d["pa"]}
+
+
 def cli(argv, load=False):
     from phonopy.cui.phonopy_script import main
 
@@ -312,8 +350,8 @@ def prepare(td, seed, residual=False):
     import phonopy
     from vtk.ref import springs as SP
 
-    open(os.path.join(td, "POSCAR"), "w").write(POSCAR)
-    rc, out = cli(["-d", "--dim", "2", "2", "2", "--pa", "F", "-c", "POSCAR"])
+    open(os.path.join(td, "POSCAR"), "w").write(SYS[_cur["sys"]]["poscar"])
+    rc, out = cli(["-d"] + BASE())
     if rc != 0 or not os.path.exists("phonopy_disp.yaml"):
         raise RuntimeError("phonopy -d failed: " + out[-300:])
     ph = phx.quiet(phonopy.load, "phonopy_disp.yaml", produce_fc=False, log_level=0)
@@ -338,7 +376,7 @@ def lib(seed, nac=False, **kw):
     from phonopy.file_IO import parse_BORN, parse_FORCE_SETS
     from phonopy.interface.vasp import read_vasp
 
-    ph = phx.quiet(Phonopy, read_vasp("POSCAR"), supercell_matrix=np.diag([2, 2, 2]), primitive_matrix="F")
+    ph = phx.quiet(Phonopy, read_vasp("POSCAR"), **LIBKW())
     ph.dataset = parse_FORCE_SETS()
     phx.quiet(ph.produce_force_constants, calculate_full_force_constants=kw.get("full_fc", False), show_drift=False)
     if kw.get("symmetrize_fc"):
@@ -353,7 +391,8 @@ def run_workflow(case, seed):
     import yaml
 
     mode, var = case["mode"], case["var"]
-    tag = "%s/%d" % (mode, var)
+    _cur["sys"] = case.get("sys", "NaCl")
+    tag = "%s/%d/%s" % (mode, var, _cur["sys"])
     cwd = os.getcwd()
     td = tempfile.mkdtemp(prefix="c18_")
 
@@ -367,14 +406,14 @@ def run_workflow(case, seed):
             from phonopy import Phonopy
             from phonopy.interface.vasp import read_vasp
 
-            open("POSCAR", "w").write(POSCAR)
+            open("POSCAR", "w").write(SYS[_cur["sys"]]["poscar"])
             opts = [[], ["--pm"], ["--nodiag"], ["--amplitude", "0.03"]][var]
             kw = [{}, {"is_plusminus": True}, {"is_diagonal": False}, {"distance": 0.03}][var]
-            rc, out = cli(["-d", "--dim", "2", "2", "2", "--pa", "F", "-c", "POSCAR"] + opts)
+            rc, out = cli(["-d"] + BASE() + opts)
             if rc != 0:
                 return fail("cli-failed", out[-200:])
             got = phx.quiet(phonopy.load, "phonopy_disp.yaml", produce_fc=False, log_level=0)
-            ref = phx.quiet(Phonopy, read_vasp("POSCAR"), supercell_matrix=np.diag([2, 2, 2]), primitive_matrix="F")
+            ref = phx.quiet(Phonopy, read_vasp("POSCAR"), **LIBKW())
             phx.quiet(ref.generate_displacements, **kw)
             a, b = got.dataset["first_atoms"], ref.dataset["first_atoms"]
             if len(a) != len(b) or any(x["number"] != y["number"] or np.abs(np.asarray(x["displacement"]) - y["displacement"]).max() > 1e-14 for x, y in zip(a, b)):
@@ -421,7 +460,7 @@ def run_workflow(case, seed):
                     return fail("forces", "FORCE_SETS forces of displacement %d differ from the calculator forces%s by %.3g" % (k + 1, " minus the residual forces" if mode == "fz" else "", np.abs(np.asarray(d["forces"]) - F[k]).max()))
             return dict(ok=True, nontrivial=True, transitions=2, outcome="ok:" + mode)
         write_force_sets(ph, F)
-        base = ["--dim", "2", "2", "2", "--pa", "F", "-c", "POSCAR"]
+        base = BASE()
         if mode == "mesh":
             opts, kw = [([], {}), (["--gc"], {"is_gamma_center": True}), (["--nomeshsym"], {"is_mesh_symmetry": False}), (["--eigvecs"], {"with_eigenvectors": True}),
                         (["--gv"], {"with_group_velocities": True}), (["--mesh-format", "hdf5"], {})][var]
@@ -446,16 +485,43 @@ def run_workflow(case, seed):
                     return fail("mesh-gv", "group velocities in mesh.yaml differ from the library")
             return dict(ok=True, nontrivial=var > 0, transitions=2, outcome="ok:mesh")
         if mode == "band":
-            opts = [[], ["--band-points", "7"], ["--band-connection"]][var]
-            rc, out = cli(base + ["--band", "0 0 0 1/2 0 0, 1/2 1/2 0 0 0 0"] + opts)
+            opts = [[], ["--band-points", "7"], ["--band-connection"], ["--band-const-interval", "--band-points", "21"], []][var]
+            if var >= 3:
+                # several connected segments of very different lengths; with a constant interval the number of points per
+                # segment follows the segment lengths in reciprocal space
+                segs = [[[0, 0, 0], [0.5, 0, 0], [0.5, 0.5, 0], [0.5, 0.5, 0.5], [0, 0, 0.5]], [[0, 0.5, 0], [0, 0, 0]]]
+                band = "0 0 0 1/2 0 0 1/2 1/2 0 1/2 1/2 1/2 0 0 1/2, 0 1/2 0 0 0 0"
+                if var == 4:
+                    open("b.conf", "w").write("BAND = %s\nBAND_CONST_INTERVAL = .TRUE.\nBAND_POINTS = 21\n" % band)
+                    rc, out = cli(base + ["b.conf"])
+                else:
+                    rc, out = cli(base + ["--band", band] + opts)
+            else:
+                rc, out = cli(base + ["--band", "0 0 0 1/2 0 0, 1/2 1/2 0 0 0 0"] + opts)
             if rc != 0:
                 return fail("cli-failed", out[-300:])
             from phonopy.phonon.band_structure import get_band_qpoints
 
             npts = 7 if var == 1 else 51
-            paths = get_band_qpoints([[[0, 0, 0], [0.5, 0, 0]], [[0.5, 0.5, 0], [0, 0, 0]]], npoints=npts)
+            if var >= 3:
+                lp = lib(seed)
+                # reciprocal basis vectors as columns, from the primitive cell the library object holds
+                paths = get_band_qpoints(segs, npoints=21, rec_lattice=np.linalg.inv(np.asarray(lp.primitive.cell)))
+                y = yaml.safe_load(open("band.yaml"))
+                if list(y["segment_nqpoint"]) != [len(p) for p in paths]:
+                    return fail("band-const-interval", "band.yaml has %s q-points per segment, get_band_qpoints(rec_lattice=inv(primitive cell)) gives %s" % (list(y["segment_nqpoint"]), [len(p) for p in paths]))
+                # and the counts follow the reciprocal-space lengths (independent of get_band_qpoints)
+                G = np.linalg.inv(np.asarray(lp.primitive.cell))
+                lens = [np.linalg.norm(G @ (np.array(b_) - np.array(a_))) for sg in segs for a_, b_ in zip(sg[:-1], sg[1:])]
+                cnt = [len(p) for p in paths]
+                longest = int(np.argmax(lens))
+                for L_, n_ in zip(lens, cnt):
+                    if abs((n_ - 1) - (cnt[longest] - 1) * L_ / lens[longest]) > 1.0:
+                        return fail("band-const-interval-lengths", "q-points per segment %s do not follow the segment lengths %s" % (cnt, np.round(lens, 3).tolist()))
+            else:
+                paths = get_band_qpoints([[[0, 0, 0], [0.5, 0, 0]], [[0.5, 0.5, 0], [0, 0, 0]]], npoints=npts)
             lp = lib(seed)
-            lp.run_band_structure(paths, is_band_connection=(var == 2))
+            lp.run_band_structure([np.array(p_) for p_ in paths], is_band_connection=(var == 2))
             fm = np.concatenate(lp.get_band_structure_dict()["frequencies"])
             y = yaml.safe_load(open("band.yaml"))
             fy = np.array([[b["frequency"] for b in p["band"]] for p in y["phonon"]])
@@ -579,7 +645,7 @@ def run_workflow(case, seed):
                 return fail("readfc-phonons", "phonons after --readfc differ from the library")
             return dict(ok=True, nontrivial=True, transitions=3, outcome="ok:writefc")
         if mode == "nac":
-            open("BORN", "w").write(BORN)
+            open("BORN", "w").write(SYS[_cur["sys"]]["born"])
             opts, q, qd = [([], [[0.1, 0.2, 0.3], [0, 0, 0]], None), (["--nac-method", "wang"], [[0.1, 0.2, 0.3]], None), (["--q-direction", "1", "0", "0"], [[0, 0, 0]], [1, 0, 0])][var]
             rc, out = cli(base + ["--nac", "--qpoints", " ".join("%g %g %g" % tuple(x) for x in q)] + opts)
             if rc != 0:
@@ -595,6 +661,44 @@ def run_workflow(case, seed):
             if np.abs(fy - lp.get_qpoints_dict()["frequencies"]).max() > 1e-9:
                 return fail("nac-phonons", "qpoints.yaml with --nac %s differs from the library" % opts)
             return dict(ok=True, nontrivial=True, transitions=2, outcome="ok:nac")
+        if mode == "pahist":
+            # two-step history: the displacement run records one primitive matrix in its yaml file, the later run asks for
+            # another one (option or tag): the later setting decides, as it does for phonopy.load(primitive_matrix=...)
+            import phonopy
+
+            PAS = [None, "P", "F", "auto"]
+            pa1, pa2, route = PAS[var // 8], PAS[(var // 2) % 4], var % 2
+            os.remove("FORCE_SETS")
+            os.remove("phonopy_disp.yaml")
+            rc, out = cli(["-d", "--dim", "2", "2", "2", "-c", "POSCAR"] + (["--pa", pa1] if pa1 else []))
+            if rc != 0:
+                return fail("cli-failed", out[-300:])
+            ph1 = phx.quiet(phonopy.load, "phonopy_disp.yaml", produce_fc=False, log_level=0)
+            from vtk.ref import springs as SP
+
+            sc = ph1.supercell
+            fc1 = SP.folded_fc(np.asarray(sc.cell), sc.positions, sc.symbols, SP.SpringModel(rc=4.5, seed=seed))
+            write_force_sets(ph1, SP.forces_for_dataset(fc1, ph1.dataset))
+            os.rename("phonopy_disp.yaml", "run.yaml")
+            if route == 0:
+                rc, out = cli(["run.yaml", "--fc-calc", "traditional", "--qpoints", "0.1 0.2 0.3"] + (["--pa", pa2] if pa2 else []), load=True)
+            else:
+                open("pa.conf", "w").write("QPOINTS = 0.1 0.2 0.3\nFC_CALCULATOR = traditional\n" + ("PRIMITIVE_AXES = %s\n" % pa2 if pa2 else ""))
+                rc, out = cli(["run.yaml", "--config", "pa.conf"], load=True)
+            if rc != 0:
+                return fail("pahist/cli-failed", out[-300:])
+            y = yaml.safe_load(open("qpoints.yaml"))
+            got = np.array([[b["frequency"] for b in p_["band"]] for p_ in y["phonon"]])
+            kw = {"primitive_matrix": pa2} if pa2 else {}
+            ref = phx.quiet(phonopy.load, "run.yaml", fc_calculator="traditional", log_level=0, **kw)
+            ref.run_qpoints([[0.1, 0.2, 0.3]])
+            want = ref.get_qpoints_dict()["frequencies"]
+            if got.shape != want.shape:
+                return fail("pahist/primitive-cell", "yaml written with --pa %s, later run with %s %s: %d bands, phonopy.load(primitive_matrix=%r) has %d" % (
+                    pa1, "--pa" if route == 0 else "PRIMITIVE_AXES =", pa2, got.shape[1], pa2, want.shape[1]))
+            if np.abs(got - want).max() > 1e-6 * np.abs(want).max():
+                return fail("pahist/phonons", "yaml written with --pa %s, later run with pa %s: frequencies differ from phonopy.load by %.3g" % (pa1, pa2, np.abs(got - want).max()))
+            return dict(ok=True, nontrivial=bool(pa1 != pa2), transitions=3, outcome="ok:pahist")
         if mode == "load" and var >= 4:
             # a calculation in another calculator's units, recorded only in the yaml file: phonopy-load writes force constants,
             # reads them back, and must still give the phonons of the library on the same data
@@ -609,7 +713,7 @@ def run_workflow(case, seed):
 
             uc = lp0.unitcell
             phc = phx.quiet(Phonopy, PhonopyAtoms(symbols=uc.symbols, cell=np.asarray(uc.cell) / u["distance_to_A"], scaled_positions=uc.scaled_positions),
-                            supercell_matrix=np.diag([2, 2, 2]), primitive_matrix="F", calculator=calc, factor=u["factor"])
+                            calculator=calc, factor=u["factor"], **LIBKW())
             phc.force_constants = np.array(lp0.force_constants) * 0.37  # arbitrary numbers in the calculator's unit
             phc.save("run.yaml", settings={"force_constants": True})
             phc.run_qpoints([[0.1, 0.2, 0.3]])
@@ -634,7 +738,7 @@ def run_workflow(case, seed):
         if mode == "load":
             import phonopy
 
-            open("BORN", "w").write(BORN)
+            open("BORN", "w").write(SYS[_cur["sys"]]["born"])
             # the summary file of a run reloads to the calculation that was run; phonopy-load reproduces it
             rc, out = cli(base + ["--nac", "--mesh", "3", "3", "3"] + (["--include-all"] if var % 2 else []))
             if rc != 0 or not os.path.exists("phonopy.yaml"):
